@@ -16,6 +16,16 @@ func init() {
 		},
 	})
 	core.Register(&core.Property{
+		ID:         "C03",
+		Decided:    "Decides that every float append in the four interpreters is dominated by a NaN/Inf test with an error exit, that user marshaler output reaches the buffer only through the validating formatters, and that the trailing-separator convention is consistent (every emitter ends with the package's separator, every closer consumes exactly that many bytes, the entry points trim exactly that many); it does not decide well-formedness of the output.",
+		NotCovered: "number grammar of json.Number, full validity of marshaler output (compactString lets control bytes through), UTF-8 validity, the token order inside each opcode handler.",
+		Rules: []*core.Rule{
+			{ID: "C03.R1", Title: "every appendFloat32/appendFloat64 call in Run of each VM is dominated by `math.IsInf(v,0) || math.IsNaN(v)` on the same variable whose true branch returns an error", Covers: "NaN and infinities of either width produce an error, never output", Min: 190, Run: c03r1},
+			{ID: "C03.R2", Title: "in AppendMarshalJSON[Indent]/AppendMarshalText[Indent] no value derived from the user's MarshalJSON/MarshalText result reaches the returned buffer except through compact/doIndent/AppendString", Covers: "ill-formed marshaler output gives an error, never output", Min: 8, Run: c03r2},
+			{ID: "C03.R3", Title: "per VM package: emitters end with appendComma's bytes, closers consume exactly len(appendComma) bytes of the tail, and package json trims exactly that many after encode/encodeIndent", Covers: "no dangling comma / unbalanced bracket from the trailing-separator protocol", Min: 60, Run: c03r3},
+		},
+	})
+	core.Register(&core.Property{
 		ID:         "C04",
 		Decided:    "Decides that the writer's and the reader's constant tables agree (escape letters, digit pairs, powers of ten, hex digits, base64 codec); it does not decide that Unmarshal(Marshal(v)) equals v.",
 		NotCovered: "float shortest-representation/parse inversion, nil-versus-empty, every value-level part of the round trip.",
